@@ -34,22 +34,24 @@ CuratedElems == {e \in Curated : ElementStringOK(e)}
 
 (* ---- types: every column list over 12 kinds, 0..2 rows ---- *)
 Kinds12 == {"short", "int", "long", "float", "double", "short2", "int2", "long2", "float2", "double2",
-            "char3", "char23", "enum"}
+            "char3", "char23", "enum", "int1", "double1", "char13"}     \* ...1 = array columns of length one
 KShort == <<"s","h","o","r","t">>
 KLong == <<"l","o","n","g">>
 KFloat == <<"f","l","o","a","t">>
 KDouble == <<"d","o","u","b","l","e">>
 EName == <<"Q","U","A","L">>
 ELabels == << <<"N","O">>, <<"Y","E","S">> >>
-BaseOf(k) == CASE k \in {"short", "short2"} -> KShort [] k \in {"int", "int2"} -> CInt [] k \in {"long", "long2"} -> KLong
-               [] k \in {"float", "float2"} -> KFloat [] k \in {"double", "double2"} -> KDouble
-               [] k \in {"char3", "char23"} -> KwChar [] k = "enum" -> EName
+BaseOf(k) == CASE k \in {"short", "short2"} -> KShort [] k \in {"int", "int2", "int1"} -> CInt [] k \in {"long", "long2"} -> KLong
+               [] k \in {"float", "float2"} -> KFloat [] k \in {"double", "double2", "double1"} -> KDouble
+               [] k \in {"char3", "char23", "char13"} -> KwChar [] k = "enum" -> EName
 ColOfKind(k, j) ==
   LET nm == <<"c", Digits[j + 1]>> IN
   CASE k \in {"short", "int", "long", "float", "double", "enum"} -> Col(nm, BaseOf(k), 0, NotChar)
     [] k \in {"short2", "int2", "long2", "float2", "double2"} -> Col(nm, BaseOf(k), 2, NotChar)
+    [] k \in {"int1", "double1"} -> Col(nm, BaseOf(k), 1, NotChar)
     [] k = "char3" -> Col(nm, KwChar, 0, 3)
     [] k = "char23" -> Col(nm, KwChar, 2, 3)
+    [] k = "char13" -> Col(nm, KwChar, 1, 3)
 IntVals == << <<"7">>, <<"-","1">> >>
 FltVals == << <<"1",".","5">>, <<"-","2",".","2","5">> >>
 StrVals == << <<"a","b">>, <<>> >>
@@ -58,6 +60,9 @@ CellOfKind(k, r) ==
     [] k \in {"float", "double"} -> FltVals[r]
     [] k \in {"short2", "int2", "long2"} -> <<IntVals[r], IntVals[3 - r]>>
     [] k \in {"float2", "double2"} -> <<FltVals[3 - r], FltVals[r]>>
+    [] k = "int1" -> <<IntVals[r]>>
+    [] k = "double1" -> <<FltVals[r]>>
+    [] k = "char13" -> <<StrVals[r]>>
     [] k = "char3" -> StrVals[r]
     [] k = "char23" -> IF r = 1 THEN << <<"x">>, <<"y", SP>> >> ELSE << <<>>, <<"#","z">> >>
     [] k = "enum" -> ELabels[r]
@@ -93,6 +98,11 @@ HeaderDoc(v, two) ==
    structs |-> <<[name |-> <<"H">>, cols |-> <<ColI(<<"n">>)>>]>>,
    rows |-> <<[t |-> 1, cells |-> << <<"3">> >>]>>]
 
+(* ---- hdrtypes: header values whose text is the str() of a non-string Python object (the harness supplies ---- *)
+(* ---- the object: 0, 0.0, -0.0, False, None, ...); the statement demands the text form back               ---- *)
+TypedTexts == { <<"0">>, <<"0",".","0">>, <<"-","0",".","0">>, <<"F","a","l","s","e">>, <<"N","o","n","e">>, <<"T","r","u","e">>,
+                <<"1">>, <<"-","7">>, <<"2",".","5">>, <<"1","e","-","0","5">>, <<"i","n","f">>, <<"n","a","n">> }
+
 (* ---- witnesses: one document per excluded text class; the round trip must FAIL in the spec ---- *)
 Witnesses ==
   { StringDoc(<<"a", SP, DQ, "b">>, <<>>, <<>>),        \* a double quote (in a string that needs quoting)
@@ -125,6 +135,8 @@ Init ==
      /\ \E nr \in 0..2 : Gen("enumtables", EnumTablesDoc(nr), TRUE)
   \/ /\ "headers" \in Families
      /\ \E v \in SeqsUpTo(HAlpha, 3) : \E two \in BOOLEAN : HeaderValueOK(v) /\ Gen("headers", HeaderDoc(v, two), TRUE)
+  \/ /\ "headers" \in Families
+     /\ \E v \in TypedTexts : \E two \in BOOLEAN : Gen("hdrtypes", HeaderDoc(v, two), TRUE)
   \/ /\ "witness" \in Families
      /\ \E d \in Witnesses : Gen("witness", d, FALSE)
   \/ /\ "kinds" \in Families
